@@ -253,7 +253,7 @@ class Interp:
                     heap.f[(p, "prev")] = None
                     return None
                 raise ShapeError("unsupported memset in %s" % f.name)
-            if c and self.prog.fn(c) is not None and c.startswith("aws_linked_list"):
+            if c and self.prog.fn(c) is not None and (c.startswith("aws_linked_list") or c in getattr(self, "allowed", ())):
                 args = [self.rval(f, a, env, heap, vals) for a in e["a"]]
                 vals[e["id"]] = self.call(c, args, heap)
                 return None
